@@ -212,6 +212,14 @@ func (rl *ReplicaLeader) sendData(wait usync.WaitCloser, req *pb.SyncRequest, st
 		// @TODO @OPTIMIZE reuse, array of []byte, notice that stream.Send is async
 		buf := make([]byte, 1024*4)
 		n, err := ioReader.Read(buf)
+		// the leader's own input may have relabelled the channel since the reader was opened (the
+		// source failed over and answered +CONTINUE <new id>) : a memory reader is not closed by
+		// SetRunId and goes on with the new master's bytes. If the channel still carries the
+		// negotiated id now, everything read so far was appended under it.
+		if id := rl.channel.RunId(); id != reqSp.RunId {
+			err = fmt.Errorf("channel run id changed : request(%s:%d), channel(%s)", reqSp.RunId, offset, id)
+			return rl.handleError(stream, err, pb.SyncResponse_ERROR, "internal error", "")
+		}
 		if err != nil {
 			if errors.Is(err, io.EOF) && n > 0 {
 				buf = buf[:n]
